@@ -15,7 +15,7 @@ from __future__ import annotations
 import ast
 from typing import Dict, List, Optional, Set, Tuple
 
-from ..model import Program, AnalysisError, FuncInfo, ClassInfo, walk_local, dotted
+from ..model import Program, AnalysisError, FuncInfo, ClassInfo, walk_local, dotted, parents_of
 from ..report import RuleResult, guard
 from ..astutil import src, site, calls_in, call_name, is_self_attr
 from ..callgraph import self_closure
@@ -876,5 +876,57 @@ def sql_clause_truth(prog: Program) -> RuleResult:
     return r
 
 
+def sql_cond_attr(prog: Program) -> RuleResult:
+    """An attribute may stand as a condition itself (entity(b, b.name), and_(b.size > 0, b.active)).  In memory it holds where the value is true
+    in Python: non-empty text, a non-zero number, True.  `WHERE <column>` means that only for a boolean column - a text column is read as a
+    number ('C1' is false, '7' is true).  So where the translator dispatches on the kind of *condition*, an attribute does not go out as the
+    bare column unless the column is known to be boolean; other types are compared with their empty value or rejected."""
+    r = RuleResult("SQL-COND-ATTR", "an attribute in condition position is translated by the Python truth of its value", floor=2)
+    tr = prog.cls(TR)
+    tq = prog.method(tr.qual, "translate_query", inherited=False)
+    err = prog.cls("eql_interface.EQLTranslationError").qual
+    branch = [t for t in walk_local(tq.node) if isinstance(t, ast.If) and "isinstance" in src(t.test) and "Attribute" in src(t.test)]
+    if not branch:
+        raise AnalysisError("SQL-COND-ATTR: translate_query no longer dispatches on Attribute")
+    rets = [x for st in branch[0].body for x in ast.walk(st) if isinstance(x, ast.Return) and x.value is not None]
+    raises = [x for st in branch[0].body for x in ast.walk(st) if isinstance(x, ast.Raise)]
+    direct = [x for x in rets if isinstance(x.value, ast.Call) and call_name(x.value) == "translate_attribute"]
+    r.check(not direct and (rets or raises), "EQLTranslator.translate_query#attribute-is-not-the-bare-column", site(tq, branch[0]), src(rets[0].value)[:80] if rets else "rejected",
+            "an attribute condition is not handed out as the column expression",
+            "an attribute that stands as a condition is translated to the bare column: WHERE name holds for the rows whose text the database reads as a non-zero number, not for the "
+            "rows with a non-empty name")
+    for x in rets:
+        if not (isinstance(x.value, ast.Call) and is_self_attr(x.value.func)):
+            continue
+        m = prog.lookup(tr.qual, x.value.func.attr)
+        if m is None or m.name == "translate_attribute":
+            continue
+        cols = {t.id for y in walk_local(m.node) if isinstance(y, ast.Assign) and isinstance(y.value, ast.Call) and call_name(y.value) == "translate_attribute" for t in y.targets if isinstance(t, ast.Name)}
+        par = parents_of(m.node)
+        bad = None
+        n_bare = 0
+        for y in [y for y in walk_local(m.node) if isinstance(y, ast.Return) and y.value is not None]:
+            bare = (isinstance(y.value, ast.Name) and y.value.id in cols) or (isinstance(y.value, ast.Call) and call_name(y.value) == "translate_attribute")
+            if not bare:
+                continue
+            n_bare += 1
+            cur, ok = y, False
+            while cur in par:
+                up = par[cur]
+                if isinstance(up, ast.If) and cur in up.body:
+                    t = up.test
+                    if (isinstance(t, ast.Compare) and len(t.ops) == 1 and isinstance(t.ops[0], (ast.Is, ast.Eq)) and src(t.comparators[0]) == "bool") or \
+                            (isinstance(t, ast.Call) and isinstance(t.func, ast.Name) and t.func.id == "issubclass" and len(t.args) == 2 and src(t.args[1]) == "bool"):
+                        ok = True
+                cur = up
+            if not ok:
+                bad = bad or y
+        rejects = any(isinstance(y, ast.Raise) for y in walk_local(m.node))
+        r.check(bad is None and rejects, f"{m.short}#bare-column-for-booleans-only", site(m, bad) if bad is not None else site(m), f"{n_bare} return(s) of the bare column",
+                "the column stands for itself only where its Python type is bool; a type whose truth SQL cannot express is rejected",
+                f"`{src(bad) if bad is not None else 'no rejection'}`: the bare column is returned for a type other than bool (or nothing is rejected): its SQL truth is not the Python truth of the value")
+    return r
+
+
 def run(prog: Program, tier: str) -> List[RuleResult]:
-    return [guard(lambda: sql_reject(prog)), guard(lambda: sql_ops(prog)), guard(lambda: sql_varid(prog)), guard(lambda: sql_alias(prog)), guard(lambda: sql_fetch(prog)), guard(lambda: sql_membership(prog)), guard(lambda: sql_chain(prog)), guard(lambda: sql_state(prog)), guard(lambda: sql_exact_dao(prog)), guard(lambda: sql_clause_truth(prog))]
+    return [guard(lambda: sql_reject(prog)), guard(lambda: sql_ops(prog)), guard(lambda: sql_varid(prog)), guard(lambda: sql_alias(prog)), guard(lambda: sql_fetch(prog)), guard(lambda: sql_membership(prog)), guard(lambda: sql_chain(prog)), guard(lambda: sql_state(prog)), guard(lambda: sql_exact_dao(prog)), guard(lambda: sql_clause_truth(prog)), guard(lambda: sql_cond_attr(prog))]
